@@ -606,21 +606,41 @@ class Flattener(object):
         uses = [n for b in body for n in ast.walk(b) if isinstance(n, ast.Name) and n.id == res and isinstance(n.ctx, ast.Load)]
         if not packs or uses:
             return None
-        mapping = {}
-        for pk in packs:
-            v = pk.value
-            if not (isinstance(v, ast.Tuple) and len(v.elts) == len(targets) and all(isinstance(e, ast.Name) for e in v.elts)):
-                return None
-            for e, t in zip(v.elts, targets):
-                if mapping.setdefault(e.id, t) != t:
-                    return None
-        if len(set(mapping.values())) != len(mapping):
-            return None
         present = set()
         for b in body:
             present |= _all_names(b)
         if any(t in present for t in targets):
             return None
+        mapping = {}
+        by_name = True
+        for pk in packs:
+            v = pk.value
+            if not (isinstance(v, ast.Tuple) and len(v.elts) == len(targets) and all(isinstance(e, ast.Name) for e in v.elts)):
+                by_name = False
+                break
+            for e, t in zip(v.elts, targets):
+                if mapping.setdefault(e.id, t) != t:
+                    by_name = False
+        if by_name and len(set(mapping.values())) != len(mapping):
+            by_name = False
+        if not by_name:
+            # every return packs a tuple of expressions: `res = (x, y)` becomes `a = x; b = y` (the targets occur nowhere in
+            # the helper, so the order of the two stores cannot be observed)
+            if not all(isinstance(pk.value, ast.Tuple) and len(pk.value.elts) == len(targets) and
+                       not any(isinstance(e, ast.Starred) for e in pk.value.elts) for pk in packs):
+                return None
+
+            class Unpack(ast.NodeTransformer):
+                def visit_Assign(self, n):
+                    if any(n is pk for pk in packs):
+                        return [ast.copy_location(ast.Assign(targets=[ast.Name(id=t, ctx=ast.Store())], value=e), n)
+                                for t, e in zip(targets, n.value.elts)]
+                    return self.generic_visit(n)
+            out = []
+            for b in body:
+                r = Unpack().visit(b)
+                out.extend(r if isinstance(r, list) else [r])
+            return _fill_empty(out)
         ren = dict(mapping)
 
         class Drop(ast.NodeTransformer):
